@@ -341,7 +341,7 @@ theorem RangeProof.provenStatement_some {p : RangeProof} {sgn : Int} {f : Nat} {
       exact ⟨h.1.symm, k, rfl, Or.inr ⟨h3, h.2.1.symm, h.2.2.symm⟩⟩
 
 /-- the statement `provenStatement` reports follows from the established fact (three squares:
-    for the only factor the verifier admits, `p.a = 4`), for every integer `m`. -/
+    for the only factor the verifier accepts, `p.a = 4`), for every integer `m`. -/
 theorem RangeProof.proven_statement_sound {p : RangeProof} {m k : Int} {sgn : Int} {f : Nat} {b : Int}
     (hk : p.k = some k) (hsign : p.sign = 1 ∨ p.sign = -1) (h3 : p.cs.length = 3 → p.a = 4)
     (hfact : p.sign * ((p.a : Int) * m - k) ≥ 0)
@@ -404,7 +404,7 @@ theorem ProofD.not_wellFormed_of_range_not_hidden {pk : PublicKey} {p : ProofD} 
   cases hw : p.wellFormed pk with
   | false => rfl
   | true =>
-    obtain ⟨_, _, _, _, hR⟩ := (ProofD.wellFormed_iff pk p).mp hw
+    obtain ⟨_, _, _, _, hR, _⟩ := (ProofD.wellFormed_iff pk p).mp hw
     rw [hrps] at hR
     have := (hR kv hkv).1
     rw [hh] at this
@@ -416,7 +416,7 @@ theorem ProofD.not_wellFormed_of_range_disclosed {pk : PublicKey} {p : ProofD} {
   cases hw : p.wellFormed pk with
   | false => rfl
   | true =>
-    obtain ⟨_, _, _, hD, hR⟩ := (ProofD.wellFormed_iff pk p).mp hw
+    obtain ⟨_, _, _, hD, hR, _⟩ := (ProofD.wellFormed_iff pk p).mp hw
     rw [hrps] at hR
     have h1 := (hR kv hkv).1
     unfold IntMap.has at hd
@@ -434,7 +434,7 @@ theorem ProofD.not_wellFormed_of_range_outside {pk : PublicKey} {p : ProofD} {rp
   cases hw : p.wellFormed pk with
   | false => rfl
   | true =>
-    obtain ⟨_, _, hA, _, hR⟩ := (ProofD.wellFormed_iff pk p).mp hw
+    obtain ⟨_, _, hA, _, hR, _⟩ := (ProofD.wellFormed_iff pk p).mp hw
     rw [hrps] at hR
     have h1 := (hR kv hkv).1
     unfold IntMap.has at h1
@@ -451,7 +451,7 @@ theorem ProofD.not_wellFormed_of_nil_rangeproof {pk : PublicKey} {p : ProofD} {r
   cases hw : p.wellFormed pk with
   | false => rfl
   | true =>
-    obtain ⟨_, _, _, _, hR⟩ := (ProofD.wellFormed_iff pk p).mp hw
+    obtain ⟨_, _, _, _, hR, _⟩ := (ProofD.wellFormed_iff pk p).mp hw
     rw [hrps] at hR
     have := (hR kv hkv).2 none hn
     exact absurd this (by simp)
@@ -779,7 +779,7 @@ theorem relation_implies_inequality_or_relation {R S : G} (C : ℕ → G) (d v :
   · right
     exact ⟨_, _, hx, h, rfl, rfl⟩
 
-/-- **relation ⇒ inequality** under the hypothesis that `R` and `S` admit no non-trivial
+/-- **relation ⇒ inequality** under the hypothesis that `R` and `S` have no non-trivial
     relation with a left exponent of absolute value at most `bnd` (the size of the extracted
     exponents). -/
 theorem relation_implies_inequality {R S : G} (C : ℕ → G) (d v : ℕ → ℤ) (n : ℕ)
@@ -1533,7 +1533,7 @@ theorem ProofD.accept_range_at_index {o : SigOracle} {kid : String} {pk : Public
   refine ⟨a, z, c, l1, rc, ha, hc, hch, ?_⟩
   -- the index is hidden, hence visited
   have hw := (ProofD.accept_facts h).1
-  obtain ⟨_, _, hA, _, hR⟩ := (ProofD.wellFormed_iff pk p).mp hw
+  obtain ⟨_, _, hA, _, hR, _⟩ := (ProofD.wellFormed_iff pk p).mp hw
   rw [hrps] at hR
   simp only [Option.getD_some] at hR
   have hhas := (hR _ (lookup_mem hl)).1
